@@ -44,11 +44,12 @@ Definition std_is_opt (e r : option err) : bool :=
 (* errors.As *)
 Fixpoint std_as (e : err) (t : as_target) : option err :=
   if assignable e t then Some e else
+  match as_method e t with Some v => Some v | None =>
   match e with
   | Wrap _ _ c | Second _ c _ | OWrap _ _ _ _ c => if has_unwrap e then std_as c t else None
   | Multi _ _ cs | OLeaf _ _ _ cs => first_some (fun m => std_as m t) cs
   | _ => None
-  end.
+  end end.
 
 (* pkg/errors.Cause *)
 Fixpoint pkg_cause (e : err) : err :=
